@@ -1,4 +1,5 @@
 pub mod c03;
 pub mod c04;
 pub mod c08;
+pub mod c09;
 pub mod c20;
